@@ -243,6 +243,17 @@ func cmdCheck(args []string) int {
 	if *dump != "" {
 		os.MkdirAll(*dump, 0o755)
 	}
+	// solver timeouts are wall-clock: on a machine that is already overloaded by
+	// other work they are scaled with the load per core (at most x4), and the
+	// number of concurrent obligations is reduced accordingly
+	if f := loadFactor(); f > 1 {
+		cfg.quickT *= f
+		cfg.slowT *= f
+		if cfg.workers/f >= 2 {
+			cfg.workers /= f
+		}
+		fmt.Fprintf(os.Stderr, "NOTE: machine load per core is above 1; solver timeouts scaled x%d\n", f)
+	}
 	solveAll(units, cfg)
 	// 5. classify
 	known := readKnownFindings(filepath.Join(*verif, "known_findings.txt"))
